@@ -39,3 +39,8 @@ claim("C10",
       "Symbolic execution of the real access.DefaultProfile.IsBlocked (full-width addresses, symbolic subnets/ASNs) against a reference predicate (blocked net/ASN not overridden by an allowed net/ASN, or a blocked-name rule), and of the whole ratelimitmw.Wrap closure with recorder stubs: every blocked request writes nothing, never reaches the next handler or any limiter and returns nil; every request that nothing rejects reaches the next handler exactly once with its RequestInfo; rate-limit drops are silent and the profile's limiter replaces the global one.",
       "Trusted: symgo, stubs for the urlfilter blocked-name engines (verdict = symbolic / rule present), device finder, GeoIP and limiters; z3. Bounds: <=1 (quick) / <=2 (thorough) entries per list. 'Not logged, billed, cached, resolved' follows from 'next not called' because all those stages live behind next (dnssvc.NewHandlers order, not re-checked here).",
       "DESIGN.md 3 C10")
+
+claim("C16",
+      "Bounded symbolic exploration of the real billstat.RuntimeRecorder (Record, Refresh, resetRecords, remergeRecords) over all histories of records for two devices and upload attempts that succeed or fail, with 0..2 records arriving while the upload is in flight; ghost counters assert delivered + pending = recorded per device after every step, and the solver shows that the pending record's time/ASN/country/protocol (all symbolic) are those of the device's latest query.",
+      "Trusted: symgo (sync.Mutex model), uploader stub, z3. In-flight records are serialised inside Upload: the shared state is only touched under the mutex, so every interleaving of the atomic sections equals such a sequence (data races outside the claim). Bounds: 2 devices, 3 (quick) / 5 (thorough) steps; int32 overflow of Queries outside the claim.",
+      "DESIGN.md 3 C16")
